@@ -323,8 +323,17 @@ def run_l1_complete_deliveries(ctx):
     line_g = b"gemini://example.org/path?q\r\n"
     surplus = [b"", b"\r\n", b"\n", b"X", b"gemini://example.org/next\r\n", b"\x00" * 40]
     k = 0
+    # request lines of every length up to the longest the protocol allows (1024 bytes of URL) and just beyond: a
+    # line that is complete is answered (20, or a prompt 59 if it is held to be too long) - never left to the timer
+    long_cases = []
+    for n_url in (900, 1000, 1018, 1019, 1020, 1021, 1022, 1023, 1024, 1025, 1030):
+        g = b"gemini://example.org/" + b"a" * (n_url - len(b"gemini://example.org/")) + b"\r\n"
+        tl = b"titan://example.org/" + b"b" * (n_url - len(b"titan://example.org/;size=12;mime=text/plain")) + b";size=12;mime=text/plain\r\n"
+        long_cases += [(f"gemini:url={n_url}:one-read", [g]), (f"gemini:url={n_url}:split-before-crlf", [g[:-2], g[-2:]]), (f"gemini:url={n_url}:split-in-crlf", [g[:-1], g[-1:]]),
+                       (f"titan:url={n_url}:line|body", [tl, body]), (f"titan:url={n_url}:all-in-one", [tl + body])]
     for sp in surplus:
         for name, feeds in (
+            *(long_cases if sp == b"" else ()),
             ("titan:line|body+surplus", [line_t, body + sp]),
             ("titan:line|body-1|last+surplus", [line_t, body[:-1], body[-1:] + sp]),
             ("titan:line+half|half+surplus", [line_t + body[:6], body[6:] + sp]),
